@@ -318,6 +318,18 @@ def x_binop(self, st, op, a, b, node):
             oa, ob = st.obj(a), st.obj(b)
             if oa.kind == "list" and ob.kind == "list" and oa.items is not None and ob.items is not None:
                 return st.alloc(HObj("list", kind="list", items=list(oa.items) + list(ob.items)))
+    if isinstance(op, (ast.Sub, ast.BitOr, ast.BitAnd)) and isinstance(a, Ref) and isinstance(b, Ref):
+        oa, ob = st.obj(a), st.obj(b)
+        if oa.kind == "set" and ob.kind == "set" and oa.items is not None and ob.items is not None:
+            kb = [vkey(x) for x in ob.items]
+            ka = [vkey(x) for x in oa.items]
+            if isinstance(op, ast.Sub):
+                items = [x for x in oa.items if vkey(x) not in kb]
+            elif isinstance(op, ast.BitAnd):
+                items = [x for x in oa.items if vkey(x) in kb]
+            else:
+                items = list(oa.items) + [x for x in ob.items if vkey(x) not in ka]
+            return st.alloc(HObj("set", kind="set", items=items))
     if isinstance(op, ast.Mod) and isinstance(a, str):
         try:
             if _is_plain(b):
@@ -429,6 +441,13 @@ def x_eq(self, st, a, b):
         if a.oid == b.oid:
             return True
         oa, ob = st.obj(a), st.obj(b)
+        if isinstance(oa.cls, ClassInfo) and oa.kind == "obj":
+            m = oa.cls.lookup("__eq__")
+            if m is not None:
+                outs = self.call_function(st.fork(), m, [b], {}, None, self_val=a)
+                if len(outs) == 1 and outs[0][1] == "val" and isinstance(outs[0][2], bool):
+                    return outs[0][2]
+                return Top("eq:__eq__", False)
         if oa.kind == ob.kind and oa.kind in ("list", "set", "dict") and oa.items is not None and ob.items is not None:
             return vkey(oa.items) == vkey(ob.items)
         return Top("eq:objects", False)
@@ -505,6 +524,8 @@ def x_order(self, st, op, a, b):
 def x_in(self, st, a, b, node):
     if isinstance(b, Ref):
         o = st.obj(b)
+        if o.kind == "set" and o.items is not None and isinstance(a, Ref):
+            return any(isinstance(x, Ref) and x.oid == a.oid for x in o.items)
         if o.kind in ("list", "set") and o.items is not None:
             b = tuple(o.items)
         elif o.kind == "dict" and o.items is not None:
